@@ -218,6 +218,13 @@ def run(ctx):
         for wrap in ('^__version__ = "%s"$', '__version__ = "%s"$', '^version: %s', 'img/\\[CalVer %s\\]-blue', '%s$'):
             for _ in range(ctx.pick(12, 200)):
                 jobs.append((wrap % vp_, corpus.random_state_kw(rng), corpus.random_date(rng)))
+    # one field in two spellings within one bracket-free stretch of the pattern ({version} and {pep440_version} on one line; a date written twice)
+    for two in ("mypkg vYYYY.0M.BUILD (pip install mypkg==YYYY.MM.BLD)", "YYYY-0M-0D (MM/DD)", "BUILD.BLD", "vYYYY.0M.BUILD YYYY.MM.BLD[PYTAGNUM]", "0Y.YYYY", "JJJ/00J of YYYY", "vYYYY.0W (week WW)"):
+        for _ in range(ctx.pick(12, 200)):
+            kw = corpus.random_state_kw(rng)
+            if "BLD" in two and str(kw.get("bid", "")).startswith("0"):
+                kw["bid"] = "1" + str(kw["bid"])        # BUILD keeps leading zeros, BLD drops them: with both in one pattern only unpadded ids have one reading
+            jobs.append((two, kw, corpus.random_date(rng)))
     ctx.log('rt jobs %d' % len(jobs))
     events += drive.pmap(_rt, jobs, hooks=False, chunksize=500)
     ctx.log('rt done')
